@@ -8,6 +8,9 @@ from common import Check, Z, F, z, ModelErr
 from implutil import attempt, rng, flat
 
 
+LD_EPS = [0.0]      # added to every leaf log-det; 1e-9 in the float64 pass (a value float32 cannot hold next to 2**k)
+
+
 def leaves():
     from nflows.transforms.base import Transform
 
@@ -19,10 +22,10 @@ def leaves():
             self.k = k
 
         def forward(self, x, context=None):
-            return x * 2 + self.k, x.new_full((x.shape[0],), 2.0 ** self.k)
+            return x * 2 + self.k, x.new_full((x.shape[0],), 2.0 ** self.k + LD_EPS[0])
 
         def inverse(self, y, context=None):
-            return (y - self.k) / 2, y.new_full((y.shape[0],), -(2.0 ** self.k))
+            return (y - self.k) / 2, y.new_full((y.shape[0],), -(2.0 ** self.k + LD_EPS[0]))
 
     class Rev(Transform):
         def forward(self, x, context=None):
@@ -147,6 +150,27 @@ def run(tier, seed):
                 m2 = drv.call("prog_inv", Z(enc), F(y[row].tolist()))
                 if m2[0] != x[row].tolist() or float(m2[1]) != -float(ld[row]):
                     mm.append({"prog": str(prog), "dir": "inverse", "model": m2, "impl": [x[row].tolist(), -float(ld[row])]})
+    # the same programs in float64 with leaf log-dets 2**k + 1e-9: the wrappers' sums keep the dtype and every digit of their
+    # inputs (an accumulator of another dtype rounds them away); implementation against plain composition
+    LD_EPS[0] = 1e-9
+    try:
+        for prog in progs[:120]:
+            t, _ = build(prog, Tag, Rev)
+            x = torch.tensor([[1.0, 2.0, 3.0, 5.0], [-4.0, 0.0, 7.0, 8.0]], dtype=torch.float64)
+            ck.case(("prog-f64", str(prog)), nontrivial=True)
+            for direction in ("forward", "inverse"):
+                got = attempt(t.forward if direction == "forward" else t.inverse, x)
+                ref = (reference if direction == "forward" else reference_inv)(prog, x)
+                if got[0] != "ok":
+                    continue
+                if got[1][1].dtype != x.dtype or got[1][0].dtype != x.dtype or not torch.equal(got[1][1], ref[1]) or not torch.equal(got[1][0], ref[0]):
+                    ck.finding("wrappers:not-function-composition:float64",
+                               "program %s %s on float64 inputs: log-det %s (dtype %s), plain composition gives %s"
+                               % (prog, direction, [repr(v) for v in got[1][1].tolist()], got[1][1].dtype, [repr(v) for v in ref[1].tolist()]),
+                               {"search": "prog-f64", "prog": prog, "direction": direction})
+                    break
+    finally:
+        LD_EPS[0] = 0.0
     ck.sample({"program": str(progs[min(30, len(progs) - 1)])})
     if drv is not None:
         ck.correspondence("composite/inverse programs", n, mm)
@@ -160,7 +184,7 @@ def reference(prog, x):
     kind = prog[0]
     b = x.shape[0]
     if kind in ("leaf", "shared"):
-        return x * 2 + prog[1], x.new_full((b,), 2.0 ** prog[1])
+        return x * 2 + prog[1], x.new_full((b,), 2.0 ** prog[1] + LD_EPS[0])
     if kind == "rev":
         return x.flip(1), x.new_zeros(b)
     if kind == "comp":
@@ -177,7 +201,7 @@ def reference_inv(prog, y):
     kind = prog[0]
     b = y.shape[0]
     if kind in ("leaf", "shared"):
-        return (y - prog[1]) / 2, y.new_full((b,), -(2.0 ** prog[1]))
+        return (y - prog[1]) / 2, y.new_full((b,), -(2.0 ** prog[1] + LD_EPS[0]))
     if kind == "rev":
         return y.flip(1), y.new_zeros(b)
     if kind == "comp":
